@@ -211,6 +211,33 @@ def open_by_extension(
     )
 
 
+def open_for_import(
+    content: Iterable[bytes],
+    name: Optional[str],
+    content_type: Optional[str],
+    extra_file_handlers: dict[str, type[File]],
+) -> File:
+    """Open an uploaded file the way it will be read back.
+
+    A stored item is read back by its extension (see open_by_extension), so
+    an upload under a name whose extension selects a specific file type is
+    validated, and has its UID checked, as that type - whatever content type
+    the client declared for it.
+
+    Args:
+      content: list of bytestrings with content
+      name: Name the item will be stored under (None if not chosen yet)
+      content_type: MIME type declared by the client (None if unknown)
+    Returns: File instance
+    """
+    if name is not None:
+        fi = open_by_extension(content, name, extra_file_handlers)
+        if content_type is None or type(fi) is not File:
+            return fi
+    assert content_type is not None
+    return open_by_content_type(content, content_type, extra_file_handlers)
+
+
 class DuplicateUidError(Exception):
     """UID already exists in store."""
 
